@@ -24,11 +24,11 @@ type loadC struct {
 func init() { Register("load", func() Component { return &loadC{} }) }
 
 type lProc struct {
-	name                      string
-	replicas, lt              int
-	ns, cmd, wd, log, desc    string
-	rp, lp                    string // encoded probe
-	vars                      [][2]string
+	name                   string
+	replicas, lt           int
+	ns, cmd, wd, log, desc string
+	rp, lp                 string // encoded probe
+	vars                   [][2]string
 }
 
 func parseLVars(s string) ([][2]string, bool) {
